@@ -11,7 +11,9 @@ use super::super::comments::Comments;
 use super::super::fmt_options::FmtOptions;
 use super::super::{context::FormatterContext, line::Line};
 use super::dispatch::handle_symbol;
-use super::helpers::{comment_opts_right, format_comments_before_token};
+use super::helpers::{
+    comment_opts_force_single_newline, comment_opts_right, format_comments_before_token,
+};
 use super::production_fmt::{format_production_lhs_with_context, format_production_with_context};
 use super::traits::Fmt;
 
@@ -310,7 +312,13 @@ impl Fmt for ParolLs {
             "\n"
         };
         let (grammar_definition, comments) = self.grammar_definition.txt(options, comments);
-        (format!("{prolog}{nl_opt}{grammar_definition}"), comments)
+        // Comments after the last production
+        let trailing_comments =
+            comments.handle_comments(&comment_opts_force_single_newline(options));
+        (
+            format!("{prolog}{nl_opt}{grammar_definition}{trailing_comments}"),
+            Comments::default(),
+        )
     }
 }
 
